@@ -291,6 +291,11 @@ impl World {
             .query_wasm_smart(self.collection_wl.clone(), &sg_whitelist::msg::QueryMsg::HasMember { member: who.to_string() });
         r.ok().map(|x| x.has_member)
     }
+    /// an execute on the collection whitelist by its own admin (the creator)
+    pub fn wl_admin_exec(&mut self, msg: &sg_whitelist::msg::ExecuteMsg) -> Result<cw_multi_test::AppResponse, String> {
+        let wl = self.collection_wl.clone();
+        chain::exec(&mut self.app, CREATOR, &wl, msg, &[])
+    }
     pub fn wl_num_members(&self) -> u32 {
         sg_whitelist::state::CONFIG.load(&*self.app.contract_storage(&self.collection_wl)).map(|c| c.num_members).unwrap_or(0)
     }
